@@ -169,18 +169,20 @@ Definition inst_update (s : inst_ts) (t : Z) (pnl : Qc) : inst_ts :=
 Definition inst_generate (s : inst_ts) : inst_ts * report :=
   let '(ts', r) := ts_generate (i_ts s) in (mkITS (i_now s) (i_pnl s) ts', r).
 
-(** operations on a tear sheet generator: an update with the next point of the curve, or a call
-    of [generate] *)
-Inductive tsop := TUpd (x : pt) | TGen.
+(** operations on a tear sheet generator: an update with the next point of the curve, a call
+    of [generate], or a persist / restore step (the state is serialised and the generator is
+    replaced by the deserialised copy: on the unchanged code the identity, modelled as a no-op) *)
+Inductive tsop := TUpd (x : pt) | TGen | TRt.
 Definition ts_step (acc : tearsheet * list report) (op : tsop) : tearsheet * list report :=
   match op with
   | TUpd x => (ts_update (fst acc) x, snd acc)
   | TGen => let '(ts', r) := ts_generate (fst acc) in (ts', snd acc ++ [r])
+  | TRt => acc
   end.
 Definition ts_run (ts : tearsheet) (ops : list tsop) : tearsheet * list report :=
   fold_left ts_step ops (ts, []).
 Definition updates_of (ops : list tsop) : list pt :=
-  flat_map (fun op => match op with TUpd x => [x] | TGen => [] end) ops.
+  flat_map (fun op => match op with TUpd x => [x] | TGen | TRt => [] end) ops.
 
 (* ------------------------------------------------------------------------------------------ *)
 (** * The independent specification                                                             *)
